@@ -1589,6 +1589,7 @@ class ClientRequest(ClientRequestBase):
                 )
 
             set_exception(protocol, reraised_exc, underlying_exc)
+            self._fail_response_body(conn, reraised_exc, underlying_exc)
         except asyncio.CancelledError:
             # Body hasn't been fully sent, so connection can't be reused
             conn.close()
@@ -1598,14 +1599,12 @@ class ClientRequest(ClientRequestBase):
                 transport.abort()
             raise
         except Exception as underlying_exc:
-            set_exception(
-                protocol,
-                ClientConnectionError(
-                    "Failed to send bytes into the underlying connection "
-                    f"{conn !s}: {underlying_exc!r}",
-                ),
-                underlying_exc,
+            reraised_exc = ClientConnectionError(
+                "Failed to send bytes into the underlying connection "
+                f"{conn !s}: {underlying_exc!r}",
             )
+            set_exception(protocol, reraised_exc, underlying_exc)
+            self._fail_response_body(conn, reraised_exc, underlying_exc)
         else:
             if writer.length:
                 # The body was shorter than the declared Content-Length: the
@@ -1614,6 +1613,19 @@ class ClientRequest(ClientRequestBase):
             # Successfully wrote the body, signal EOF and start response timeout
             await writer.write_eof()
             protocol.start_timeout()
+
+    def _fail_response_body(
+        self, conn: "Connection", exc: BaseException, exc_cause: BaseException
+    ) -> None:
+        # Once the response head was taken nobody reads the protocol's queue
+        # of messages again: the failed upload is reported to the reader of the
+        # response body, and the connection ends so that the peer does not wait
+        # for the rest of the request.
+        protocol = conn.protocol
+        if protocol is None or (body := protocol._payload) is None or body.is_eof():
+            return
+        set_exception(body, exc, exc_cause)
+        conn.close()
 
     async def _close(self) -> None:
         if self._writer_task is not None:
